@@ -237,6 +237,15 @@ def typ(v):
     return {"i": "int", "f": "float", "s": "str", "b": "bool", "n": "null", "l": "list", "t": "tuple", "F": "func", "M": "module"}[v[0]]
 
 
+def type_desc(v):
+    """structural type of a value: scalars by name, lists by the set of their element types, tuples by field"""
+    if v[0] == "l":
+        return ("l", frozenset(type_desc(x) for x in v[1]))
+    if v[0] == "t":
+        return ("t", tuple((k, type_desc(x)) for k, x in v[1]))
+    return v[0]
+
+
 def deep_equal(a, b, ordered_tuples=True):
     """Manual: == performs deep comparison; tuples are ordered sets and must have their fields in
     the same order. Nested values of different types are simply unequal."""
@@ -356,6 +365,7 @@ class Interp:
         self.and_or_check_right = and_or_check_right
         self.trace = trace if trace is not None else []
         self.steps = 0
+        self.hetero_concat = False      # set when two lists with different element types were concatenated
 
     # env: dict name -> value ; self_stack: list
     def run(self, stmts):
@@ -469,7 +479,12 @@ class Interp:
             v = self.ev(e, env, selfs)
         except Fail as f:
             if f.cls == "user":
-                return
+                if e[0] == "fail":
+                    return
+                # a `fail` somewhere inside the skipped expression stops its evaluation before the
+                # types of what surrounds it are seen (true || [1, fail "x"]): evaluation cannot
+                # tell whether the skipped expression is well typed
+                raise DeadCodeFails("undetermined")
             raise DeadCodeFails(f.cls)
         if want_bool and v[0] != "b":
             raise DeadCodeFails("type")
@@ -579,6 +594,8 @@ class Interp:
         if op == "+" and a[0] == "s" and b[0] == "s":
             return ("s", a[1] + b[1])
         if op == "+" and a[0] == "l" and b[0] == "l":
+            if a[1] and b[1] and {type_desc(x) for x in a[1]} != {type_desc(x) for x in b[1]}:
+                self.hetero_concat = True
             return ("l", a[1] + b[1])
         raise Fail("type", "operands of %s" % op)
 
